@@ -9,6 +9,7 @@ for i in $(seq -w 1 20); do
     echo "CLEAN-TREE PROBLEM C$i exit=$rc"; echo "$out" | grep "^UNDECIDED\|^VIOLATION\|ANALYSIS-ERROR" | cut -c1-200; bad=1
   fi
 done
-tools/seed_matrix.py 2>&1 | awk '{kind=($1 ~ /-q/)?"q":"b"; ok=(kind=="q" && $3=="exit=0")||(kind=="b" && $3=="exit=1"); if(!ok) {print "SEED PROBLEM", $0; bad=1}} END {exit bad}' || bad=1
+MISS=$(grep -l known_miss seeded/*/meta.json | xargs -n1 dirname | xargs -n1 basename | tr '\n' ' ')
+tools/seed_matrix.py 2>&1 | awk -v miss=" $MISS" '{ if (index(miss, " "$1" ")) next; kind=($1 ~ /q[0-9]+$/)?"q":"b"; ok=(kind=="q" && $3=="exit=0")||(kind=="b" && $3=="exit=1"); if(!ok) {print "SEED PROBLEM", $0; bad=1}} END {exit bad}' || bad=1
 [ $bad -eq 0 ] && echo "regression clean"
 exit $bad
